@@ -296,6 +296,20 @@ class EmgInterp(Base):
                 if ok:
                     self.drop_model(idx)
                     self.check("remove-label")
+            elif op["target"] == "via-shallow-copy" and self.model:
+                # copy.copy(block) shares the block's lists: a signal removed through the copy is gone from both, and both stay aligned
+                import copy as _copy
+
+                idx = op["idx"] % len(self.model)
+                item = self.items[self.model[idx][1]][0]
+                if sum(1 for _, i in self.model if self.items[i][0].label == item.label) > 1:
+                    return
+                twin = _copy.copy(self.b)
+                ok, _ = self.ctx.must(lambda: twin.removeSignal(item.label), "remove-via-shallow-copy", f"removing the signal labelled {item.label!r} through a shallow copy of the block")
+                if ok:
+                    self.drop_model(idx)
+                    self.stats["removed-through-shallow-copy"] = self.stats.get("removed-through-shallow-copy", 0) + 1
+                    self.check("remove-via-shallow-copy")
             else:
                 self.expect_refusal("remove-absent", lambda: self.b.removeSignal("no such signal"), (KeyError,), "removing a label that is not there")
 
@@ -643,7 +657,7 @@ def ops(t):
     readd = st.fixed_dictionaries({"op": st.just("readd"), "mode": st.sampled_from(["auto", "free"]), "idx": idx, "ch": ch})
     bad = st.fixed_dictionaries({"op": st.just("add-invalid"), "mode": st.sampled_from(["auto", "free", "free"]), "ch": ch, "idx": idx})
     if t == "emg":
-        rem = st.fixed_dictionaries({"op": st.just("remove"), "target": st.sampled_from(["present", "present", "absent"]), "idx": idx})
+        rem = st.fixed_dictionaries({"op": st.just("remove"), "target": st.sampled_from(["present", "present", "absent", "via-shallow-copy"]), "idx": idx})
         return st.one_of(add, add, rem, rem, readd, bad)
     if t == "platCal":
         rem = st.fixed_dictionaries({"op": st.just("remove"), "target": st.sampled_from(["index", "item", "index-out-of-range", "absent-item", "negative-index", "negative-index",
@@ -673,3 +687,5 @@ def make(t):
 SUBS = [make(t) for t in ("emg", "platCal", "platData")]
 from ..core import optimised_child_sub  # noqa: E402
 SUBS.append(optimised_child_sub("C15", ["emg", "platCal", "platData"]))
+SUBS.append(optimised_child_sub("C15", ["emg", "platCal", "platData"], flags=("-W", "error::UserWarning"), name="under-warnings-as-errors", extra_env={"VERIF_WARNINGS": "error"},
+                                what="User / Deprecation / Future warnings are raised as exceptions"))
